@@ -321,7 +321,7 @@ def generate(ctx, rnd):
     ctx.count('transitions', r.states)
     if ctx.quick:
         rnd.shuffle(raws)
-        raws = raws[:1500]
+        raws = raws[:1200]
     cases = [{'raw': p, 'cid': 'pe%d' % k, 'src': 'tlc'} for k, p in enumerate(raws)]
     nsim = ctx.pick(200, 4000)
     rs = core.run_tlc('MC_Phases', 'MC_Phases_sim', workers=1, timeout=1500,
@@ -331,7 +331,7 @@ def generate(ctx, rnd):
         raise core.MachineryError('MC_Phases_sim produced no behaviours:\n' + rs.out[-2000:])
     ctx.coverage['phases_tlc_simulated_behaviours'] = len(sims)
     cases += [{'raw': p, 'cid': 'ps%d' % k, 'src': 'sim'} for k, p in enumerate(sims)]
-    cases += [random_case(rnd, 'pr%d' % k) for k in range(ctx.pick(500, 8000))]
+    cases += [random_case(rnd, 'pr%d' % k) for k in range(ctx.pick(400, 8000))]
     return cases
 
 
